@@ -33,7 +33,7 @@ fn meta() -> Meta {
     Meta {
         id: "C02",
         level: "exploration",
-        rule: "every specification with <= 3 (quick: <= 2 plus a slice of 3) distinct module names from {a, a::b, a::bc, ab, b, error} x 6 level filters each x default in {absent, 6 filters} x regex in {none, x, ^y$}, built via parse(), LogSpecBuilder and From<LevelFilter>, probed with 10 targets x 5 levels x 4 messages (plus brace targets for the additional writer and both LogLineFilter behaviours); distinct_nontrivial = distinct specifications with at least one module entry whose decision differs from the default for some probe",
+        rule: "every specification with <= 3 (quick: <= 2 plus a slice of 3) distinct module names from {a, a::b, a::bc, ab, b, error} x 6 level filters each x default in {absent, 6 filters} x regex in {none, x, ^y$}, built via parse(), LogSpecBuilder and From<LevelFilter>, probed with 10 targets x 5 levels x 4 messages (plus brace targets for the additional writer and both LogLineFilter behaviours); distinct_nontrivial = distinct specifications with at least one module entry whose decision differs from the default for some probe; with a text filter every probe is preceded by a record whose message panics after part of its text (caught)",
         assumptions: vec![
             "module names are non-empty and occur at most once per specification (as the property states)".into(),
             "one additional writer with ceiling Warn".into(),
